@@ -23,6 +23,7 @@ def genReq (req : Req) : HttpRequest :=
     under consideration they return what the model's request says they return -/
 def genRoute (req : Req) (r : Route) : ImpGen.GoRoute :=
   { Method := r.method, Produces := r.produces, Consumes := r.consumes,
+    Path := r.path, relativePath := r.relPath,
     If := r.conds.map (fun i _ => req.conds.getD i false),
     pathParts := r.pathParts, pathExpr := none, hasCustomVerb := r.hasCustomVerb,
     allowedMethodsWithoutContentType := r.noct }
